@@ -248,8 +248,12 @@ def check(an: Analysis) -> None:
         if s.is_method and recv_expr is not None:
             ob6.inst(fi, recv_expr)
             r = unwrap(recv_expr)
-            if isinstance(r, ast.Call) and an.callee(fi, r) == "builtins.id":
-                pass
+            uses_id = [x for x in ast.walk(r) if isinstance(x, ast.Call) and an.callee(fi, x) == "builtins.id" and x.args and is_name(x.args[0], s.recv)]
+            weak = [x for x in fi.own_nodes() if isinstance(x, ast.Call) and (an.callee(fi, x) or "").startswith("weakref.")]
+            if uses_id and not weak:
+                ob6.fail(fi, recv_expr, "the receiver is identified by id() alone: the id of a collected receiver is reused by a new object, which is then answered from the dead instance's (still retained) entries - nothing ties the entry's lifetime to the receiver")
+            elif uses_id:
+                pass  # id() + a weak reference / finalizer that drops the entries with the receiver
             elif (isinstance(r, ast.Call) and an.callee(fi, r) == "weakref.ref") or is_name(r, s.recv):
                 ob6.fail(fi, recv_expr, "receiver key component compares by == / hash of the receiver, not identity: two equal instances share cached results", construct="ref(<receiver>)" if isinstance(r, ast.Call) else "<receiver>")
             else:
